@@ -1383,6 +1383,12 @@ class C16(core.PropertyCheck):
             for tag, inner in (("inner-wrong-type", 'name = 5\n'), ("inner-syntax", 'name = "x\n'), ("inner-unknown-field", 'name = "x"\nno_such_field = 1\n')):
                 for via in ("open", "project"):
                     yield {"kind": "tomlraw", "tag": tag, "shape": "inner", "inner": inner, "via": via}
+            # a project that silences the very class its configuration errors are reported with: the configuration is refused
+            # all the same (a field that is not permitted does not become permitted by not talking about it)
+            for tag, body in (("silenced-unknown-data-field", 'name = "x"\nsilence_diagnostics = ["UnmarshallingError"]\n[data]\nno_such_data_field = 1\n'),
+                              ("silenced-unknown-field", 'name = "x"\nsilence_diagnostics = ["UnmarshallingError"]\nno_such_field = 1\n'),
+                              ("silenced-wrong-type", 'name = "x"\nsilence_diagnostics = ["UnmarshallingError"]\ntitle = 5\n')):
+                yield {"kind": "tomlraw", "tag": tag, "hex": body.encode("utf-8").hex(), "via": "project", "must_refuse": True}
         # 3b. facets.toml: the other configuration file of a project (read by the postprocessor through
         #     ProjectConfig.load_facets_from_file): well-formed documents, every malformed shape, and text damage
         from impl import c02disk
@@ -1684,6 +1690,8 @@ class C16(core.PropertyCheck):
         if kind == "tomlraw":
             if impl["out"] == "other":
                 return f"opening the project raised {impl['exc']} at stage {impl.get('stage', 'config')} ({impl['msg']}) instead of reporting a configuration diagnostic [snooty.toml: {case['tag']}]"
+            if case.get("must_refuse") and impl["out"] != "ProjectLoadError":
+                return f"a configuration that is refused without it was opened because it silences UnmarshallingError [snooty.toml: {case['tag']}]"
             if case.get("shape") == "inner" and impl["out"] != "ProjectLoadError" and not [d for d in impl.get("diags", []) if d[0] == "UnmarshallingError"]:
                 return (f"the snooty.toml of the directory that was opened is broken ({case['tag']}) but nothing was reported: the configuration of the "
                         f"directory above it was opened in its place")
